@@ -102,6 +102,11 @@ func snapFind(l []portalwire.VerifNodeSnap, id enode.ID) int {
 type checker struct {
 	self  enode.ID
 	fails map[string]int // consecutive fruitless queries per (id, ip), as the node database keys them
+	// lastRemoved[id] = step at which id last stopped being an entry. A liveness answer that arrives after
+	// the entry it was started for has been removed must change nothing, even if the same id is an entry
+	// again; the monitor cannot see which incarnation a held ping belongs to, so both outcomes are allowed
+	// for ids removed since (well before) the ping was first seen.
+	lastRemoved map[enode.ID]int
 }
 
 func failKey(id enode.ID, ip netip.Addr) string { return string(id[:]) + ip.String() }
@@ -229,11 +234,15 @@ func (c *checker) apply(st tabledrv.Step, before portalwire.VerifTableSnap) (ms 
 		if i < 0 {
 			return [][]mbucket{m}, false // removed while being checked: the answer must change nothing
 		}
+		var stale [][]mbucket
+		if lr, ok := c.lastRemoved[st.Pinged]; ok && lr >= st.PingSeenAt-200 {
+			stale = [][]mbucket{m} // possibly an answer for an earlier incarnation of this id: no change
+		}
 		if !st.Alive {
 			// failed liveness check: the entry stays with no more credit than before, or leaves (credit exhausted)
 			stay := cloneModel(m)
 			stay[bi].entries[i].credit = creditDownOrSame
-			return append([][]mbucket{stay}, c.remove(m, st.Pinged)...), false
+			return append(append([][]mbucket{stay}, c.remove(m, st.Pinged)...), stale...), false
 		}
 		alive := cloneModel(m)
 		e := &alive[bi].entries[i]
@@ -254,7 +263,7 @@ func (c *checker) apply(st tabledrv.Step, before portalwire.VerifTableSnap) (ms 
 				ms = [][]mbucket{upd}
 			}
 		}
-		return ms, false
+		return append(ms, stale...), false
 	case tabledrv.Refresh:
 		return nil, true // seed nodes come from the node database: outside the model, invariants only (C07)
 	}
@@ -361,6 +370,16 @@ func (o *obs) OnStep(st tabledrv.Step, before, after portalwire.VerifTableSnap) 
 		}
 	}
 	o.r.Max("max_allowed_successors_in_one_step", len(ms))
+	for bi := range before.Buckets {
+		for _, e := range before.Buckets[bi].Entries {
+			if snapFind(after.Buckets[bi].Entries, e.ID) < 0 {
+				o.c.lastRemoved[e.ID] = st.N
+			}
+		}
+	}
+	if st.Kind == tabledrv.PingReply && st.N-st.PingSeenAt > 0 {
+		o.r.Count("liveness_answers_held_across_other_steps", 1)
+	}
 	// coverage
 	bi := -1
 	switch st.Kind {
@@ -446,7 +465,7 @@ func run(r *lib.Run) {
 		go func(i int) {
 			defer wg.Done()
 			defer func() { <-sem }()
-			o := &obs{r: r, idx: i, c: &checker{fails: map[string]int{}}}
+			o := &obs{r: r, idx: i, c: &checker{fails: map[string]int{}, lastRemoved: map[enode.ID]int{}}}
 			st, err := tabledrv.RunSerial(r.RNG("serial", i), steps, o)
 			if err != nil {
 				r.FloorMiss("history %d: %v", i, err)
